@@ -16,7 +16,10 @@ RULE = ("12% option strings for parse_upstream_auth (colon in every position, LF
         "with or without client TLS), then 1-7 interleaved steps: requests in absolute form (http and https targets, two "
         "hosts, default and explicit ports) or origin form (with/without Host), CONNECT followed by plain HTTP or by a real "
         "TLS handshake inside the tunnel, the upstream proxy refusing a CONNECT (407/502), a server closing a connection "
-        "(forcing a new connection and a new CONNECT). Client headers come from a dictionary of Proxy-Authorization / "
+        "(forcing a new connection and a new CONNECT), the option upstream_auth being set / unset / changed / given an invalid "
+        "value at run time between any two steps (real options update -> configure hook), a client disconnecting; 10% of the "
+        "sessions are the late-configure shape (CONNECT accepted with the option unset or different, option set, requests in "
+        "the still-open tunnel). Client headers come from a dictionary of Proxy-Authorization / "
         "Authorization spellings (duplicates, other users' credentials, near-misses of the configured one) and neutral "
         "headers. upstream_auth is configured in ~85% of the sessions; http_connect_send_host_header and "
         "connection_strategy vary. The real mode layers, the real NextLayer addon and real TLS layers run under "
@@ -78,6 +81,19 @@ def _gen_req(rng, c):
             "hdrs": _gen_hdrs(rng), "proxy_ok": not rng.chance(0.07)}
 
 
+INVALID_AUTHS = ["", "nocolon", ":x", "\n:p", ":"]
+
+
+def _gen_conf(rng):
+    r = rng.random()
+    return {"t": "configure", "auth": rng.choice(AUTHS) if r < 0.6 else (None if r < 0.85 else rng.choice(INVALID_AUTHS))}
+
+
+def _all_steps(case):
+    """the initial option value is a configure step before the first client connects"""
+    return ([{"t": "configure", "auth": case["auth"]}] if case["auth"] is not None else []) + case["steps"]
+
+
 def _gen_session(rng, tier):
     nconn = 1 if rng.chance(0.7) else 2
     auth = rng.choice(AUTHS) if rng.chance(0.85) else None
@@ -95,10 +111,30 @@ def _gen_session(rng, tier):
         tun[c] = False
         modes_[c] = mode
         used[c] = not (mode == "reverses" and case["eager"])
+    if rng.chance(0.10):
+        # the option is set only after a tunnel was accepted (round-2 seeded change): CONNECT with upstream_auth unset or
+        # different, configure, then requests inside the still-open tunnel
+        case["auth"] = rng.choice([None, None, rng.choice(AUTHS)])
+        steps[1:] = []
+        steps[0] = {"c": 0, "t": "open", "mode": rng.choice(["upstream", "upstream", "upstreams"])}
+        if rng.chance(0.3):
+            steps.append(_gen_req(rng, 0))
+        steps.append({"c": 0, "t": "connect", "host": rng.choice(HOSTS), "port": rng.choice([80, 443, 8080]),
+                      "tls": rng.chance(0.25), "proxy_ok": True})
+        steps.append({"t": "configure", "auth": rng.choice(AUTHS)})
+        for _ in range(rng.randint(1, 3)):
+            steps.append(_gen_req(rng, 0))
+            if rng.chance(0.2):
+                steps.append(_gen_conf(rng))
+        return case
     for _ in range(rng.randint(1, 7)):
         c = rng.randint(0, nconn - 1)
         r = rng.random()
-        if r < 0.22 and not tun[c] and (modes_[c] in ("regular", "upstream", "upstreams") or rng.chance(0.12)):
+        if r > 0.90:
+            steps.append(_gen_conf(rng))
+        elif r > 0.87:
+            steps.append({"c": c, "t": "close"})
+        elif r < 0.22 and not tun[c] and (modes_[c] in ("regular", "upstream", "upstreams") or rng.chance(0.12)):
             steps.append({"c": c, "t": "connect", "host": rng.choice(HOSTS), "port": rng.choice([80, 443, 8080]),
                           "tls": rng.chance(0.45), "proxy_ok": not rng.chance(0.1)})
             tun[c] = True
@@ -376,10 +412,22 @@ def run_session(case):
     env = {"log": [], "proxy_ok": True}
     out = []
     with taddons.context(ua, nl) as tctx:
-        if case["auth"] is not None:
-            tctx.configure(ua, upstream_auth=case["auth"])
         clients = {}
-        for st in case["steps"]:
+        creds = []
+        for st in _all_steps(case):
+            if st["t"] == "configure":
+                # a run-time options update: OptManager.update -> configure hook of every addon (rolled back on OptionsError)
+                err = None
+                try:
+                    tctx.configure(ua, upstream_auth=st["auth"])
+                except exceptions.OptionsError:
+                    err = "options"
+                except Exception as e:
+                    err = "other:" + type(e).__name__
+                if ua.auth:
+                    creds.append(ua.auth.hex())
+                out.append({"conf": ua.auth.hex() if ua.auth is not None else None, "err": err})
+                continue
             c = st["c"]
             env["proxy_ok"] = st.get("proxy_ok", True)
             mark = len(env["log"])
@@ -400,6 +448,9 @@ def run_session(case):
                         cl.send(f"CONNECT {st['host']}:{st['port']} HTTP/1.1\r\n\r\n".encode())
                         if st["tls"] and cl.alive() and cl.to_client.endswith(b"established\r\n\r\n"):
                             cl.start_tls(st["host"])
+                    elif st["t"] == "close":
+                        cl.d.close(0)
+                        cl.pump()
                     elif st["t"] == "srvclose":
                         k = st["ord"]
                         if k < len(cl.d.conns) and k in cl.hops and cl.d.conns[k].state & cl.d.CS.CAN_READ:
@@ -425,7 +476,7 @@ def run_session(case):
             for o in range(len(cl.d.conns)):
                 streams.append({"c": c, "ord": o, "level": "wire", "hop": list(cl.hops[o]) if o in cl.hops else None,
                                 "data": cl.d.sent(o).hex()})
-    return {"fixed": FIXED, "cred": ua.auth.hex() if ua.auth else None, "steps": out, "streams": streams}
+    return {"fixed": FIXED, "creds": sorted(set(creds)), "steps": out, "streams": streams}
 
 
 def _is_tls_proxy(cl):
@@ -475,7 +526,11 @@ def _hostaddr(hh):
 
 
 def _event(st):
+    if st["t"] == "configure":
+        return "WConfigure " + copt(st["auth"], lambda a: clist((cN(ord(ch)) for ch in a), "N"), "(list N)")
     c = cN(st["c"])
+    if st["t"] == "close":
+        return f"WClose {c}"
     if st["t"] == "open":
         return f"WOpen {c} {_pmode(st)}"
     if st["t"] == "req":
@@ -505,17 +560,26 @@ def coq_case(case, obs):
             return f"Parse {clist((cN(c) for c in case['auth']), 'N')} OOther"
         t = {"ok": lambda: f"(OOk {cbytes(bytes.fromhex(obs['v']))})", "options": lambda: "OOptions", "unicode": lambda: "OUnicode"}[r]()
         return f"Parse {clist((cN(c) for c in case['auth']), 'N')} {t}"
-    auth = copt(case["auth"], lambda s: clist((cN(ord(ch)) for ch in s), "N"), "(list N)")
-    evs = clist((_event(st) for st in case["steps"]), "wevent")
-    steps = clist((f"(OStep {clist((_cwrite(w) for w in o['writes']), 'owrite')} {cbool(o['alive'])} {cbool(o['crash'] is not None)})"
-                   for o in obs["steps"]), "ostep")
-    return (f"Session {auth} {cbool(case['send_host'])} {cbool(case['eager'])} {cbool(obs['fixed'])} "
-            f"{copt(obs['cred'], lambda h: cbytes(bytes.fromhex(h)), 'bytes')} {evs} {steps}")
+    evs = clist((_event(st) for st in _all_steps(case)), "wevent")
+
+    def ostep(o):
+        if "conf" in o:
+            if o["err"] and o["err"].startswith("other"):
+                return "(OStep nil false true)"      # never matches a configure event: reported as a disagreement
+            return f"(OConf {copt(o['conf'], lambda h: cbytes(bytes.fromhex(h)), 'bytes')})"
+        return f"(OStep {clist((_cwrite(w) for w in o['writes']), 'owrite')} {cbool(o['alive'])} {cbool(o['crash'] is not None)})"
+    steps = clist((ostep(o) for o in obs["steps"]), "ostep")
+    return f"Session {cbool(case['send_host'])} {cbool(case['eager'])} {cbool(obs['fixed'])} {evs} {steps}"
 
 
 # ------------------------------------------------------------------ oracle: the property on the implementation
-def _token(case):
-    return base64.b64encode(case["auth"].encode("utf-8"))
+def _valid_auth(a):
+    """the documented format username:password, as the option's regex .+: reads it (dot does not match LF)"""
+    return any(a[i] == ":" and a[i - 1] != "\n" for i in range(1, len(a)))
+
+
+def _token(a):
+    return base64.b64encode(a.encode("utf-8"))
 
 
 def oracle(case, obs):
@@ -532,16 +596,19 @@ def oracle(case, obs):
         elif obs["r"].startswith("other"):
             v.append({"key": "parse-other-exception", "what": f"parse_upstream_auth({s!r}) raised {obs['r'][6:]}"})
         return v
+    steps = _all_steps(case)
     for o in obs["steps"]:
-        if o["crash"]:
+        if o.get("crash"):
             v.append({"key": "layer-crash", "what": f"layer raised {o['crash']}"})
-    if case["auth"] is None:
-        return v
-    tok = _token(case)
-    modes_of = {st["c"]: st for st in case["steps"] if st["t"] == "open"}
+        if (o.get("err") or "").startswith("other"):
+            v.append({"key": "configure-other-exception", "what": f"configure raised {o['err'][6:]}"})
+    # every credential that is configured at some point of the session (the option may change at run time)
+    toks = {_token(st["auth"]) for st in steps if st["t"] == "configure" and st["auth"] is not None and _valid_auth(st["auth"])}
+    modes_of = {st["c"]: st for st in steps if st["t"] == "open"}
     # 1. every byte stream that left the proxy, decrypted where a peer could decrypt it
     for s in obs["streams"]:
-        if tok not in bytes.fromhex(s["data"]):
+        data = bytes.fromhex(s["data"])
+        if not any(t in data for t in toks):
             continue
         st = modes_of[s["c"]]
         m = st["mode"]
@@ -561,9 +628,18 @@ def oracle(case, obs):
                           "what": "upstream credential sent through the CONNECT tunnel to the origin server in a plain-HTTP request: " + where})
         else:
             v.append({"key": "credential-to-origin", "what": "credential sent to a host that is neither upstream proxy nor reverse target: " + where})
-    # 2. and it is sent where the statement says it is
-    cred = b"Basic " + tok
-    for st, o in zip(case["steps"], obs["steps"]):
+    # 2. and it is sent where the statement says it is, with the value configured at that time
+    cur = None
+    for st, o in zip(steps, obs["steps"]):
+        if st["t"] == "configure":
+            if st["auth"] is None:
+                cur = None
+            elif _valid_auth(st["auth"]):
+                cur = b"Basic " + _token(st["auth"])
+            continue
+        if cur is None:
+            continue
+        cred = cur
         m = modes_of[st["c"]]["mode"]
         for w in o["writes"]:
             vals = [bytes.fromhex(x) for n, x in w["auth"]]
@@ -585,28 +661,45 @@ def oracle(case, obs):
 def nontrivial(case, obs):
     if case["k"] == "parse":
         return 58 in case["auth"]
-    return case["auth"] is not None and any(o["writes"] for o in obs["steps"])
+    return bool(obs["creds"]) and any(o.get("writes") for o in obs["steps"])
 
 
 def classify(case, obs):
     if case["k"] == "parse":
         return ["parse", "parse-" + obs["r"].split(":")[0]]
+    steps = _all_steps(case)
     tags = ["session", "auth" if case["auth"] is not None else "no-auth", "eager" if case["eager"] else "lazy"]
-    for st in case["steps"]:
+    kinds = set()
+    nconf = 0
+    tunnel_then_conf = set()
+    tunnels = set()
+    for st, o in zip(steps, obs["steps"]):
         if st["t"] == "open":
             tags.append("mode-" + st["mode"])
-    kinds = set()
-    for st, o in zip(case["steps"], obs["steps"]):
+        if st["t"] == "configure":
+            nconf += 1
+            kinds.add("conf-rejected" if o["err"] else ("conf-unset" if st["auth"] is None else "conf-set"))
+            if nconf > 1 or case["auth"] is None:
+                kinds.add("runtime-configure")
+                if o["conf"]:
+                    tunnel_then_conf |= tunnels
+            continue
         if not o["alive"]:
             kinds.add("client-closed")
         for w in o["writes"]:
             kinds.add(("connect" if w["connect"] else "req") + ("-tun" if w["tun"] else "") + ("-via" if w["via"] else ""))
-            if obs["cred"] and any(x == obs["cred"] for _, x in w["auth"]):
+            if any(x in obs["creds"] for _, x in w["auth"]):
                 kinds.add("cred-written")
+            if w["tun"] and not w["connect"] and st["c"] in tunnel_then_conf:
+                kinds.add("req-in-tunnel-after-late-configure")
         if st["t"] == "connect":
             kinds.add("connect-tls" if st["tls"] else "connect-plain")
+            if o["alive"]:
+                tunnels.add(st["c"])
         if st["t"] == "srvclose":
             kinds.add("srvclose")
-    if len({st["c"] for st in case["steps"]}) > 1:
+        if st["t"] == "close":
+            kinds.add("client-disconnect")
+    if len({st["c"] for st in steps if "c" in st}) > 1:
         kinds.add("two-clients")
     return sorted(set(tags)) + sorted(kinds)
